@@ -17,7 +17,8 @@ RULE = ('exact stream: node lists of 1..5 nodes with integer coordinates in [-8,
         'beyond the chord end, S-shape, exact coincidence "t=1/2 point of a piece equals its start/end point": '
         'P3 = 7 P0 - 3 P1 - 3 P2 and the mirrored form) x flatness in {1,3/2,2,3,4}*2^s; points held as lists [x,y] '
         '(cubicsuperpath) or as tuples (x,y) (the repo tests), alternating; random binary64 stream with flatness '
-        '2^-r*scale (r<=10; a few deep cases r<=18), 40% translated by up to 1e9*flat from the origin; every 2nd/4th case is '
+        '2^-r*scale (r<=10; a few deep cases r<=18), 40% translated by up to 1e9*flat from the origin; long nearly straight '
+        'pieces (dyadic chord length 1e3..1e9*flat, inner control points bulging sideways by 0.5..4*flat); every 2nd/4th case is '
         'followed by a second call on the same list object. non-trivial = at least one split; distinct by (node list, flat)')
 TRUSTED = ['harness oracle: restrict() by blossoming and dist2() by clamped projection, in exact Fractions',
            'modelled not verified: Python list indexing / slice insertion s_p[i:1] = [x] as insertion at index i (i >= 1)',
@@ -145,6 +146,35 @@ def gen_nodes_float(rng, scale):
             for h, nd in ((a[2], a), (b[0], b)):
                 h[0] = nd[1][0] + (h[0] - nd[1][0]) / 8; h[1] = nd[1][1] + (h[1] - nd[1][1]) / 8
     return sp
+
+
+def gen_long_piece(rng):
+    """a LONG nearly straight piece: chord of dyadic length 1e3..1e9 * flat along an axis or a diagonal (inputs exact),
+    inner control points inside the chord's span bulging sideways by 0.5..4 * flat — the exact answer (flat / must split)
+    is decided with a wide margin, but a cancelling distance formula loses the bulge against the length"""
+    flat = rng.choice([0.5, 1.0, 0.25, 2.0, 0.125])
+    e = rng.uniform(math.log2(1e3), math.log2(1e9))
+    L = flat * rng.choice([1, 3, 5, 7]) * 2.0 ** int(e)
+    while L > 1e9 * flat:
+        L /= 2
+    fr = lambda: rng.randint(1, 7) / 8
+    a, c = sorted([fr(), fr()])
+    b1 = flat * rng.choice([0.5, 0.75, 1.0, 1.5, 2.0, 3.0, 4.0, rng.randint(5, 32) / 8]) * rng.choice([-1, 1])
+    b2 = flat * rng.choice([0.0, 0.5, 1.0, 2.0, 4.0, rng.randint(0, 32) / 8]) * rng.choice([-1, 1])
+    if rng.random() < 0.5:
+        b1, b2 = b2, b1
+    loc = [(0.0, 0.0), (a * L, b1), (c * L, b2), (L, 0.0)]            # (along, across)
+    d = rng.choice(['x', 'y', '-x', 'diag'])
+    rot = {'x': lambda s, t: (s, t), 'y': lambda s, t: (-t, s), '-x': lambda s, t: (-s, -t),
+           'diag': lambda s, t: (s - t, s + t)}[d]
+    ox = rng.choice([0.0, 0.0, flat * 2.0 ** rng.randint(4, 24) * rng.choice([-1, 1])])
+    P = [[rot(s, t)[0] + ox, rot(s, t)[1]] for s, t in loc]
+    g = lambda: [P[0][0] - flat * rng.randint(0, 8), P[0][1] + flat * rng.randint(-8, 8)]
+    sp = [[g(), P[0], P[1]], [P[2], P[3], [P[3][0] + flat * rng.randint(0, 8), P[3][1] + flat * rng.randint(-4, 4)]]]
+    if rng.random() < 0.3:                # followed by an ordinary short piece
+        q = [P[3][0] + 8 * flat, P[3][1] + 8 * flat]
+        sp.append([[q[0] - 2 * flat, q[1] + flat], q, list(q)])
+    return sp, flat
 
 
 # ------------------------------------------------------------------------------------------ one case
@@ -347,9 +377,14 @@ def run(ctx):
     # ---------------- random binary64 stream: implementation judged by the Spec within REL
     nfl = ctx.n(1200)
     ndeep = ctx.n(6)
-    for it in range(-len(replay_float), nfl + ndeep):
+    nlong = ctx.n(300)
+    # pinned: 3*2^27 long, both inner control points 1.0 off the chord, flat 0.5 (must split)
+    replay_float = replay_float + [([[[0.0, 0.0], [0.0, 0.0], [2.0 ** 27, 1.0]], [[2.0 ** 28, 1.0], [3 * 2.0 ** 27, 0.0], [3 * 2.0 ** 27, 0.0]]], 0.5)] * 2
+    for it in range(-len(replay_float), nfl + ndeep + nlong):
         if it < 0:
             sp, flat = replay_float[-it - 1]
+        elif it >= nfl + ndeep:
+            sp, flat = gen_long_piece(rng)
         else:
             scale = 10.0 ** rng.randint(-2, 4)
             sp = gen_nodes_float(rng, scale)
@@ -374,7 +409,7 @@ def run(ctx):
             ctx.count((str(sp), flat), 'raised', True)
             ctx.violate('subdivideCubicPath raised ' + type(ex).__name__, inp, repr(ex), 'the node list is refined in place')
             continue
-        ctx.count((str(sp), flat), 'float:deep' if it >= nfl else ('float:far' if far else 'float'), len(res) > len(sp))
+        ctx.count((str(sp), flat), 'float:long' if it >= nfl + ndeep else 'float:deep' if it >= nfl else ('float:far' if far else 'float'), len(res) > len(sp))
         if judge(ctx, sp, objs, res, flat, False, inp, stats) and it % 4 == 0 and not ctx.violations:
             second_call(ctx, pu, res, flat, False, inp, stats)
     ctx.notes.append(f"max subdivision depth seen {stats['depth']}; float stream: max |node - Spec| = "
